@@ -410,3 +410,14 @@ def s7(ctx):
 
 
 RULES.append(s7)
+
+
+@rule("S8", doc="'saturated' cannot be reached through a matcher that overlooks instances: the single-pattern matcher ranges over all live classes, all e-nodes of a class and all group-compatible variants, and skips only on operator / shape mismatch and slot-bijection conflict (C04.M1-M3)")
+def s8(ctx):
+    from . import c04
+    c04.m1(ctx)
+    c04.m2(ctx)
+    c04.m3(ctx)
+
+
+RULES.append(s8)
